@@ -1,122 +1,6 @@
-import ColoVerif.Model.DetPlace
-import Driver.Common
-import Driver.CircuitIO
+import ColoVerif.Driver.DetPlaceIO
 /-
-Driver for C02 (also used by C05): replays the harness' operations on the `DetPlace` model.
-
-  case <k>                       -> case <k>
-  circuit … end                  -> (nothing; accumulates the circuit)
-  init                           -> init ok | init throw:runtime_error
-  rows                           -> rows (minX maxX minY maxY orient)*
-  state                          -> st (r first last [ cells ])* (c w row pred next x y orient)*
-  check                          -> check ok|throw:runtime_error
-  canSwap a b / canInsert c r p / canPlace c r p x   -> <op> 0|1|throw:runtime_error
-  posSwap a b                    -> posSwap x1 y1 x2 y2
-  posInsert c r p                -> posInsert x y
-  swap a b / insert c r p / shift (c x)* / reorder …  -> <op> ok|throw:runtime_error|guard   (through `State.step`)
-  unplace c / place c r p x      -> raw primitives
-  probeX c x / probeOrient c o   -> result of check() on the state with that field changed
-  export                         -> sol x0 y0 o0 …   (exportPlacement into the circuit)
-  h_swap / h_insert / h_shift / h_reorder   (hook H3 history) -> nothing when accepted, `rejected …` otherwise
+Driver for C02: replays the harness' operations on the `DetPlace` model
+(protocol in ColoVerif/Driver/DetPlaceIO.lean).
 -/
-open ColoVerif ColoVerif.DetPlace Driver
-
-structure DS where
-  circ : Circuit := ⟨[], [], []⟩
-  st : Option State := none
-
-def errName : Err → String
-  | .runtime => "throw:runtime_error"
-  | .guard => "guard"
-
-def showBoolE : Except Err Bool → String
-  | .ok true => "1"
-  | .ok false => "0"
-  | .error e => errName e
-
-def showState (s : State) : String :=
-  let rows := (State.intsUpTo s.nRows).map fun r =>
-    s!" r {s.rowFirst r} {s.rowLast r} [" ++ String.join ((s.rowCells r).map fun c => s!" {c}") ++ " ]"
-  let cells := (State.intsUpTo s.nCells).map fun c =>
-    s!" c {s.width c} {s.row c} {s.pred c} {s.next c} {s.x c} {s.y c} {(s.orient c).code}"
-  "st" ++ String.join rows ++ String.join cells
-
-def pairs : List Int → List (Int × Int)
-  | a :: b :: rest => (a, b) :: pairs rest
-  | _ => []
-
-/-- `n c…  m (row pred k (c pos)*)*` -/
-def parseRegions : Nat → List Int → List Region
-  | 0, _ => []
-  | fuel + 1, row :: pred :: k :: rest =>
-    ⟨row, pred, pairs (rest.take (2 * k.toNat))⟩ :: parseRegions fuel (rest.drop (2 * k.toNat))
-  | _, _ => []
-
-def parseReorder (a : List Int) : Op :=
-  match a with
-  | n :: rest =>
-    let cells := rest.take n.toNat
-    match rest.drop n.toNat with
-    | m :: regs => .reorder cells (parseRegions m.toNat regs)
-    | [] => .reorder cells []
-  | [] => .reorder [] []
-
-def checkName (b : Bool) : String := if b then "ok" else "throw:runtime_error"
-
-/-- apply a checked step; `loud` = primitives stream (always answers), otherwise history stream -/
-def doStep (d : DS) (s : State) (name : String) (op : Op) (loud : Bool) : DS × List String :=
-  match s.step op with
-  | .ok t => ({ d with st := some t }, if loud then [name ++ " ok"] else [])
-  | .error e => (d, [if loud then name ++ " " ++ errName e else "rejected " ++ name ++ " " ++ errName e])
-
-def stepLine (d : DS) (ws : List String) : DS × List String :=
-  match ws with
-  | [] => (d, [])
-  | ["case", k] => ({}, ["case " ++ k])
-  | ["end"] => (d, [])
-  | ["init"] =>
-    match fromIspdCircuit d.circ with
-    | .ok s => ({ d with st := some s }, ["init ok"])
-    | .error e => ({ d with st := none }, ["init " ++ errName e])
-  | op :: args =>
-    match circuitLine d.circ ws with
-    | some c => ({ d with circ := c }, [])
-    | none =>
-      match d.st with
-      | none => (d, ["no-state " ++ op])
-      | some s =>
-        let a := ints args
-        match op, a with
-        | "rows", _ => (d, ["rows" ++ String.join (s.rows.map fun r =>
-              s!" {r.rect.minX} {r.rect.maxX} {r.rect.minY} {r.rect.maxY} {r.orient.code}")])
-        | "state", _ => (d, [showState s])
-        | "check", _ => (d, ["check " ++ checkName s.check])
-        | "canSwap", [c1, c2] => (d, ["canSwap " ++ showBoolE (s.canSwap c1 c2)])
-        | "canInsert", [c, r, p] => (d, ["canInsert " ++ showBoolE (s.canInsert c r p)])
-        | "canPlace", [c, r, p, x] => (d, ["canPlace " ++ showBoolE (s.canPlace c r p x)])
-        | "posSwap", [c1, c2] =>
-          let q := s.positionsOnSwap c1 c2
-          (d, [s!"posSwap {q.1.1} {q.1.2} {q.2.1} {q.2.2}"])
-        | "posInsert", [c, r, p] =>
-          let q := s.positionOnInsert c r p
-          (d, [s!"posInsert {q.1} {q.2}"])
-        | "swap", [c1, c2] => doStep d s "swap" (.swap c1 c2) true
-        | "insert", [c, r, p] => doStep d s "insert" (.insert c r p) true
-        | "shift", _ => doStep d s "shift" (.shift (pairs a)) true
-        | "reorder", _ => doStep d s "reorder" (parseReorder a) true
-        | "h_swap", [c1, c2] => doStep d s "swap" (.swap c1 c2) false
-        | "h_insert", [c, r, p] => doStep d s "insert" (.insert c r p) false
-        | "h_shift", _ => doStep d s "shift" (.shift (pairs a)) false
-        | "h_reorder", _ => doStep d s "reorder" (parseReorder a) false
-        | "unplace", [c] => ({ d with st := some (s.unplace c) }, ["unplace ok"])
-        | "place", [c, r, p, x] =>
-          match s.place c r p x with
-          | .ok t => ({ d with st := some t }, ["place ok"])
-          | .error e => (d, ["place " ++ errName e])
-        | "probeX", [c, x] => (d, ["probeX " ++ checkName ({ s with x := upd s.x c x }).check])
-        | "probeOrient", [c, o] =>
-          (d, ["probeOrient " ++ checkName ({ s with orient := upd s.orient c (Orient.ofCode o.toNat) }).check])
-        | "export", _ => (d, [showSolution (exportPlacement s d.circ)])
-        | _, _ => (d, ["bad-op " ++ " ".intercalate ws])
-
-def main : IO Unit := Driver.run stepLine {}
+def main : IO Unit := Driver.run Driver.DetPlaceIO.stepLine {}
